@@ -398,3 +398,55 @@ impl Drop for TaskIterator<'_> {
         }
     }
 }
+
+/// Safe façade over `TaskSet` for the verification harness (V1).
+#[cfg(nexosim_verif)]
+#[allow(missing_docs, missing_debug_implementations)]
+pub mod verif_task_set {
+    use std::task::Waker;
+
+    use diatomic_waker::WakeSink;
+
+    use super::TaskSet;
+
+    pub struct VTaskSet {
+        set: TaskSet,
+        sink: WakeSink,
+    }
+
+    impl VTaskSet {
+        pub fn new(len: usize) -> Self {
+            let mut sink = WakeSink::new();
+            let set = TaskSet::with_len(sink.source(), len);
+
+            Self { set, sink }
+        }
+
+        /// Registers the waker that is notified when the countdown armed by
+        /// `take` reaches zero.
+        pub fn register(&mut self, waker: &Waker) {
+            self.sink.register(waker);
+        }
+
+        /// An owned waker for the sub-task `idx`.
+        pub fn waker(&self, idx: usize) -> Waker {
+            (*self.set.waker_of(idx)).clone()
+        }
+
+        /// `take_scheduled(notify_count)`, then the first `keep` indices
+        /// yielded by the iterator, which is then dropped.
+        pub fn take(&self, notify_count: usize, keep: usize) -> Option<Vec<usize>> {
+            self.set
+                .take_scheduled(notify_count)
+                .map(|it| it.take(keep).collect())
+        }
+
+        pub fn has_scheduled(&self) -> bool {
+            self.set.has_scheduled()
+        }
+
+        pub fn discard_scheduled(&self) {
+            self.set.discard_scheduled();
+        }
+    }
+}
